@@ -10,7 +10,8 @@ at the real cf_collapse_layer_solution call) the statement's clauses are obligat
                             Needs the zgesv facts: proved by a linear certificate  goal == lambda * fact  checked in exact arithmetic.
   interface[stack;i;type]  between the last slice of layer i and the first slice of layer i+1: y1, y2, y5, y6 continuous where both sides
                             define them; y4 = 0 on the solid side of a solid/liquid interface; through static liquid
-                            y7 = y6 + (4 pi G/g_i) y2 and y7 continuous between static liquids (g_i = mean interface gravity used by the code);
+                            y7 = y6 + (4 pi G/g_i) y2 and y7 continuous between static liquids (g_i = mean interface gravity used by the code); the normal
+                            stress on the other side of a static liquid equals its hydrostatic value rho_liquid (g_i y1 - y5);
                             stated on the OUTPUT arrays where the quantity is exposed and on the collapsed layer vectors otherwise.
   defined[stack;type]      every exposed quantity is free of the NaN sentinel and of unset storage where the layer kind defines it.
 Identities are exact (rational functions of the opaque symbols).
@@ -136,6 +137,7 @@ def point_refute(D, facts, cvars, seed=0):
 def decide_with_facts(b, oid, clause, D_list, facts, cvars, meta):
     """D_list: real expressions that must vanish given the zgesv facts"""
     certs = []
+    D_list = [D for D in D_list if D != 0]
     for D in D_list:
         c = linear_certificate(D, facts, cvars)
         if c is None:
@@ -186,7 +188,8 @@ def identity(b, oid, clause, diffs, meta):
     t0 = __import__("time").time()
     bad = None
     for k, d in enumerate(diffs):
-        e = complexify(d)
+        dd = Cx.of(d)
+        e = dd.re if dd.im == 0 else complexify(d)
         try:
             z = sp.cancel(sp.together(e))
         except Exception as ex_:
@@ -227,10 +230,11 @@ def identity(b, oid, clause, diffs, meta):
     b.add(Obligation(oid=oid, fn=KEY, clause=clause, goal=None, meta=meta, decided=dict(verdict="undecided", backend="-", seconds=secs, reason=f"clause #{k}: non-zero normal form but no separating point found", model=None)))
 
 
-def one_stack(b, stack, nondim, solve_for):
+def one_stack(b, stack, nondim, solve_for, analytic=None):
+    analytic = (len(stack) > 1) if analytic is None else analytic
     tag = "-".join(stack) + (";nondim=1" if nondim else ";nondim=0") + ";solve_for=" + "+".join(solve_for)
     try:
-        ex, paths, cfg = SM.run_solver(b, stack, solve_for=tuple(solve_for), nondim=nondim)
+        ex, paths, cfg = SM.run_solver(b, stack, solve_for=tuple(solve_for), nondim=nondim, analytic=analytic)
     except SymExError as e:
         b.subset_exits.append(f"{KEY} [{tag}]: {e}")
         return
@@ -262,7 +266,8 @@ def one_stack(b, stack, nondim, solve_for):
             for fr, fi in zrec["facts"]:
                 facts += [fr, fi]
             for c in zrec["c"]:
-                cvars += [c.re, c.im]
+                cvars += [v_ for v_ in (c.re, c.im) if isinstance(v_, sp.Symbol)]
+            facts = [f_ for f_ in facts if f_ != 0]
         top_kind = kinds[-1]
         top = total - 1
         crecs = [r for r in st.collapse_calls if r["ytype"] == ty]
@@ -334,6 +339,13 @@ def one_stack(b, stack, nondim, solve_for):
             if "y7" in c_lo and "y6" in c_up:
                 diffs.append(c_lo["y7"] - (c_up["y6"] + 4 * T.PI * Gc / gi * c_up["y2"]))
                 what.append("y7 = y6 + (4 pi G/g) y2 (liquid below)")
+            # hydrostatic normal stress of a static liquid, seen from the neighbouring solid / dynamic-liquid side (the liquid's own density at the interface)
+            if "y7" in c_up and "y2" in c_lo:
+                diffs.append(c_lo["y2"] - rec_up["density"][0] * (gi * c_lo["y1"] - c_lo["y5"]))
+                what.append("y2 = rho_liquid (g y1 - y5) below a static liquid")
+            if "y7" in c_lo and "y2" in c_up:
+                diffs.append(c_up["y2"] - rec_lo["density"][1] * (gi * c_up["y1"] - c_up["y5"]))
+                what.append("y2 = rho_liquid (g y1 - y5) above a static liquid")
             if "y7" in c_lo and "y7" in c_up:
                 diffs.append(c_lo["y7"] - c_up["y7"])
                 what.append("y7 continuous")
